@@ -26,7 +26,7 @@ REQUIRED = {**{f"kind:{k}": 20 for k in KINDS}, **{f"repeated:{k}": 8 for k in K
             "repeated-lineshape-setting(must-raise)": 10, "lineshape:several-kinds-one-particle": 10, "photos:absent": 10, "photos:one": 10, "photos:several-last-differs": 5,
             "photos:three-or-more": 5, "particle:width-default-real": 10, "particle:width-default-via-alias": 10, "particle:alias-name-reused-across-files": 5, "particle:explicit-width": 10,
             "jetset:int": 10, "jetset:float": 10, "jetset:signed": 5, "pythia:number": 10, "pythia:word": 10, "statements-between-blocks": 20,
-            "statements>=5-of-one-kind": 10, "corpus-file": 15}
+            "statements>=5-of-one-kind": 10, "split-over-several-files": 20, "corpus-file": 15}
 ASSUMPTIONS = ["Particle statements without a width are only generated for names whose reference width is in the particle data table",
                "key order of the returned dictionaries is not part of the statement"]
 
@@ -154,6 +154,30 @@ def check(ctx, stmts, text, wit, workload, um=(), files=None, hits=()):
     if not ok:
         return
     p, _ = res
+    if files is None and len(stmts) >= 4 and ctx.rng.random() < 0.35:
+        # the same statements split over 2-3 input files passed in order: declarations of a later file win
+        import os  # noqa: PLC0415
+
+        from .. import core as _core  # noqa: PLC0415
+
+        ctx.hit("split-over-several-files")
+        d = os.path.join(os.environ.get("VMON_RUN_DIR") or _core.WORK, f"c07-{os.getpid()}")
+        os.makedirs(d, exist_ok=True)
+        k = ctx.rng.choice([2, 3])
+        cuts = sorted(ctx.rng.sample(range(1, len(stmts)), k - 1))
+        parts = [stmts[a:b] for a, b in zip([0, *cuts], [*cuts, len(stmts)])]
+        paths = []
+        for part in parts:
+            name = "".join(ctx.rng.choice("abcdefghijklmnopqrstuvwxyz0123456789_") for _ in range(ctx.rng.randint(1, 9))) + ".dec"
+            pth = os.path.join(d, name)
+            with open(pth, "w", encoding="utf-8") as fh:
+                fh.write(L.render(part))
+            paths.append(pth)
+        w2 = {**wit, "files": [os.path.basename(x) for x in paths], "parts": [L.render(x) for x in parts]}
+        ok2, res2 = ctx.guard("parse-multi-file", w2, snapshot.make_parser, None, paths, um)
+        if ok2:
+            for mech, msg in snapshot.compare_globals(res2[0], exp):
+                ctx.violate("multi-file:" + mech, msg, w2)
     ctx.mon("C07.queries_match_statement_order_semantics")
     for mech, msg in snapshot.compare_globals(p, exp):
         ctx.violate(mech, msg, wit)
